@@ -94,8 +94,8 @@ def c12_2(ctx, ss):
     from .common import guarded_values
     gv = guarded_values(ff, flow, defs)
     texts = sorted(txt(v) for _, v in gv)
-    FILT = (canon("[k for k in self.decays if k not in stable_particles]"), canon("[k for k in self.decays.keys() if k not in stable_particles]"))
-    ALLK = ("list(self.decays.keys())", "list(self.decays)", canon("[k for k in self.decays]"))
+    FILT = (canon("[k for k in self.decays if k not in stable_particles]"), canon("[k for k in self.decays if k not in stable_particles]"))
+    ALLK = ("list(self.decays)", "list(self.decays)", canon("[k for k in self.decays]"))
     alt_ok = bool(texts) and all(t in FILT + ALLK for t in texts)
     if alt_ok:
         ctx.holds("C12.2", k + " :: all-keys", where(ff, lp), "keys = every decaying particle not declared stable; the loop ranges over all of them", len(defs) + 1)
